@@ -52,6 +52,8 @@ func (e expression) Evaluate(ctx Context) (out any, err error) {
 			switch e := r.(type) {
 			case values.TypeError:
 				err = e
+			case values.MethodError:
+				err = e.Err
 			case InterpreterError:
 				err = e
 			case UndefinedFilter:
